@@ -52,6 +52,7 @@ type Options struct {
 	Proxy          bool     // gRPC: put a cuttable TCP proxy between client and server
 	NoValid        bool     // gRPC: hand the configuration to the server as it is (the server application does not validate it)
 	OpenCtxDone    bool     // gRPC: the context given to external.Open is cancelled as soon as Open has returned
+	InlineCtxDone  bool     // inline: the context given to inline.Open is done already (the worker pool never runs: no Drain)
 }
 
 // Env is one opened database.
@@ -118,7 +119,13 @@ func Open(o Options) (*Env, error) {
 	}
 	switch o.Mode {
 	case Inline:
-		db, err := inline.Open(context.Background(), e.Cfg)
+		octx := context.Background()
+		if o.InlineCtxDone {
+			c, cancel := context.WithCancel(octx)
+			cancel()
+			octx = c
+		}
+		db, err := inline.Open(octx, e.Cfg)
 		if err != nil {
 			return nil, err
 		}
